@@ -15,6 +15,7 @@
 #include <kernel/geometry/mesh_node.hpp>
 #include <kernel/trafo/standard/mapping.hpp>
 #include <kernel/space/lagrange1/element.hpp>
+#include <kernel/space/discontinuous/element.hpp>
 #include <kernel/space/lagrange2/element.hpp>
 #include <kernel/analytic/common.hpp>
 #include <kernel/analytic/lambda_function.hpp>
@@ -296,6 +297,33 @@ namespace C13
         spl.split_read_from(s3, fn);
         dump_vec("io_w", s3.local(), kx, ky);
       }
+    }
+    // ---- discontinuous (P0) space on the same partitioned mesh: no DOF is shared, so the gate has NO neighbour mirrors
+    //      although the communicator has several processes -- the reductions must still be global, the synchronisations
+    //      the identity
+    {
+      g_phase = "dc_gate";
+      typedef Space::Discontinuous::Element<typename DomainLevelType::TrafoType, Space::Discontinuous::Variant::StdPolyP<0>> SpaceP0;
+      SpaceP0 sp0(the_domain_level.trafo);
+      typename SystemLevelType::SystemGate gate0;
+      Control::Asm::asm_gate(domain.front(), sp0, gate0, true);
+      LocalVector cx, cy;
+      Coords<ShapeType::dimension>::project(cx, cy, sp0);
+      GlobalSystemVector u(&gate0, sp0.get_num_dofs()), w(&gate0, sp0.get_num_dofs());
+      for(Index i = 0; i < cx.size(); ++i) { u.local()(i, key_value(cx(i), cy(i), data_seed + 6001u)); w.local()(i, key_value(cx(i), cy(i), data_seed + 6002u)); }
+      dump_vec("dc_u", u.local(), cx, cy);
+      dump_vec("dc_w", w.local(), cx, cy);
+      dump_scalar("dc_dot_u_w", u.dot(w));
+      dump_scalar("dc_norm2_u", u.norm2());
+      dump_scalar("dc_norm2sqr_w", w.norm2sqr());
+      dump_scalar("dc_max_abs_u", u.max_abs_element());
+      dump_scalar("dc_min_abs_u", u.min_abs_element());
+      dump_scalar("dc_dot_u_w_async", u.dot_async(w).wait());
+      dump_scalar("dc_norm2_u_async", u.norm2_async().wait());
+      GlobalSystemVector v = u.clone();
+      v.sync_0(); dump_vec("dc_sync0_post", v.local(), cx, cy);
+      v.sync_1(); dump_vec("dc_sync1_post", v.local(), cx, cy);
+      { auto t = v.sync_0_async(); t.wait(); } dump_vec("dc_sync0_async_post", v.local(), cx, cy);
     }
     // ---- grid transfer across every level pair of the (possibly multi-layered) hierarchy: restriction of a
     //      key-valued fine vector and prolongation of a key-valued coarse vector, logged per level with that level's
